@@ -173,15 +173,16 @@ namespace C13
     {
       auto maxdiff = [](const GlobalSystemVector& x, const GlobalSystemVector& y) { double m = 0.0; const auto* px = x.local().elements(); const auto* py = y.local().elements();
         for(Index i = 0; i < x.local().size(); ++i) { const double dd = std::fabs(double(px[i]) - double(py[i])); if(!(dd <= m)) m = dd; } return m; };
-      const bool has_nb = !lvl.gate_sys.get_ranks().empty();   // a gate without neighbours hands out finished (empty) tickets: wait() on those asserts
+      // wait() is called on every ticket, as documented ("a ticket that has to be waited upon") - also on the empty ticket of a gate
+      // without neighbours (one process), which aborted on the pinned tree (fixed: known_findings.json)
       double e = 0.0;
       { GlobalSystemVector a = vec_int.clone(LAFEM::CloneMode::Deep), b = vec_int.clone(LAFEM::CloneMode::Deep);
-        a.sync_1(); { auto tk = b.sync_1_async(); if(has_nb) tk.wait(); }
+        a.sync_1(); { auto tk = b.sync_1_async(); tk.wait(); }
         e = std::max(e, std::max(maxdiff(a, vec_int), maxdiff(b, vec_int))); }
       { GlobalSystemVector a = vec_int.clone(LAFEM::CloneMode::Deep); a.local().scale(a.local(), 1.0 + 0.25 * double(comm.rank()));
         GlobalSystemVector b = a.clone(LAFEM::CloneMode::Deep), c2 = a.clone(LAFEM::CloneMode::Deep), d2 = a.clone(LAFEM::CloneMode::Deep);
-        a.sync_1(); { auto tk = b.sync_1_async(); if(has_nb) tk.wait(); }
-        c2.from_1_to_0(); c2.sync_0(); d2.from_1_to_0(); { auto tk = d2.sync_0_async(); if(has_nb) tk.wait(); }
+        a.sync_1(); { auto tk = b.sync_1_async(); tk.wait(); }
+        c2.from_1_to_0(); c2.sync_0(); d2.from_1_to_0(); { auto tk = d2.sync_0_async(); tk.wait(); }
         e = std::max(e, std::max(maxdiff(b, a), std::max(maxdiff(c2, a), maxdiff(d2, a)))); }
       comm.allreduce(&e, &sync_route_err, std::size_t(1), Dist::op_max);
       const double d_b = vec_int.dot(vec_tmp), d_a = vec_int.dot_async(vec_tmp).wait(), n_b = vec_int.norm2(), n_a = vec_int.norm2_async().wait(), q_a = vec_int.norm2sqr_async().wait();
